@@ -963,7 +963,7 @@ func c08Gen(tier string, rng *rand.Rand) []c08Case {
 	}
 	nmt := 10
 	if tier == "thorough" {
-		nmt = 60
+		nmt = 120
 	}
 	for i := 0; i < nmt; i++ {
 		threads := []int{2, 4, 8, 16, 32}[rng.Intn(5)]
@@ -978,7 +978,7 @@ func c08Gen(tier string, rng *rand.Rand) []c08Case {
 	// large concurrent batches (monitor only: non-zero, pairwise distinct, counter inside the reachable window)
 	nbig := 3
 	if tier == "thorough" {
-		nbig = 12
+		nbig = 24
 	}
 	for i := 0; i < nbig; i++ {
 		threads := []int{16, 8, 32, 4}[i%4]
@@ -998,7 +998,7 @@ func c08Gen(tier string, rng *rand.Rand) []c08Case {
 	// scripted-server scenarios
 	sizes := []int{1, 1, 1, 4, 4, 4, 4, 4, 32, 32, 32, 256, 256}
 	if tier == "thorough" {
-		for i := 0; i < 12; i++ {
+		for i := 0; i < 24; i++ {
 			sizes = append(sizes, 1, 4, 4, 32, 32, 256, 8, 64, 128, 2, 16)
 		}
 	}
